@@ -4,7 +4,7 @@
     exactly as many identifiers as inference adds columns (C07_star_arity_partial), and an
     identifier that is a reserved word of the engine is always quoted
     (C07_quoted_partial; the keyword table is regenerated from reserved.go). *)
-From Verif Require Import Model.Compile Spec.PgScope Judge.JQ Judge.J02 Proofs.ColumnsFacts Proofs.ExpandFacts.
+From Verif Require Import Model.Compile Spec.PgScope Judge.JQ Judge.J02 Proofs.ColumnsFacts Proofs.ExpandFacts Proofs.StarExplicit.
 Open Scope string_scope.
 Open Scope list_scope.
 
@@ -51,3 +51,17 @@ Theorem C07_qualified_entry_partial : forall tables t c,
   In t tables -> In c (qt_cols t) -> In c (ref_candidates tables (tn_name (qt_rel t)) (qc_name c)).
 Proof. exact qualified_entry_candidate. Qed.
 Print Assumptions C07_qualified_entry_partial.
+
+(** "The same query written with * and with the explicit list generates the same
+    API": for every scope with pairwise distinct relation names and, per
+    relation, pairwise distinct column names, the star and the explicit list of
+    all columns - each qualified with its relation's visible name - infer the
+    same result columns: number, order, names, types, nullability, array-ness and
+    owning tables.  (Relations with duplicate column names are the finding
+    star_over_duplicate_column_names.) *)
+Theorem C07_star_equals_explicit_partial : forall e tables,
+  NoDup (map (fun t => tn_name (qt_rel t)) tables) ->
+  Forall (fun t => tn_name (qt_rel t) <> "" /\ NoDup (map qc_name (qt_cols t))) tables ->
+  targets_columns e tables (explicit_targets tables) = targets_columns e tables [star_target].
+Proof. exact star_equals_explicit. Qed.
+Print Assumptions C07_star_equals_explicit_partial.
